@@ -38,6 +38,9 @@ TRUSTED = ["coq/Nest/Nest.v is a hand transcription of nested_render_text/run_di
 ORACLES = {
     "P / PI": "the Markdown parser md.parse / md.parseInline (markdown-it-py + plug-ins): token forest and mutated env; abstract in "
               "every theorem (oracles record o_P, o_PI); exercised through O_fence_content, O_norm, O_shift and all metamorphic pairs",
+    "O_log": "= log_oracles (Coq: Hypothesis O_log : log_oracles in Nest/InclProofs.v): opaque directives and eval-rst leave "
+             "md_env['include_log'] alone; exercised by the include-history cases (corr history:*, search include-history) and the "
+             "chains with nested code-block / unknown directives and eval-rst between includes",
     "log_oracles": "opaque directives and eval-rst do not touch md_env['include_log'] (premise of C06_include_chain_restored; "
                    "corr/search: include histories with nested code-block / unknown directives in between)",
     "O_fence_content": "markdown-it: a backtick/tilde/colon fence whose body has no closing line gives one token with "
